@@ -1342,7 +1342,7 @@ def run_shard(desc):
                 },
                 limit=2,
             )
-    res.extra['shard_wall'] = {'max_s': round(time.time() - t0, 1)}
+    res.extra['shard_seconds'] = {'sum_over_shards': round(time.time() - t0, 1)}
     import exabgp
 
     res.extra['exabgp_file'] = exabgp.__file__
